@@ -271,7 +271,9 @@ theorem not_residual_examples :
     ¬ Allowed (.indexError "opt[0]") ∧ ¬ Allowed (.indexError "match[1][0]") ∧ ¬ Allowed (.reError "x") ∧
     ¬ Allowed (.noneType "readTo match[1]") ∧ ¬ Allowed (.indexError "match[0][0] line") ∧
     ¬ Allowed (.indexError "match[0][0] list") ∧ ¬ Allowed (.indexError "match[0][0] block") ∧
-    ¬ Allowed (.assertion "not self.eof()") ∧ ¬ Allowed (.indexError "reader.lines[pos:pos]") := by
+    ¬ Allowed (.assertion "not self.eof()") ∧ ¬ Allowed (.indexError "reader.lines[pos:pos]") ∧
+    ¬ Allowed (.indexError "group") ∧ ¬ Allowed (.indexError "no such group") ∧ ¬ Allowed (.indexError "quote[0]") ∧
+    ¬ Allowed (.assertion "qdef is not None") := by
   decide
 
 /-- the outcomes that are allowed and are not Python exceptions -/
